@@ -2,7 +2,9 @@ package tscommon
 
 import (
 	"fmt"
+	"regexp"
 	"sort"
+	"strconv"
 	"strings"
 
 	"google.golang.org/protobuf/compiler/protogen"
@@ -347,6 +349,26 @@ func GenerateEnumType(p Printer, enum *protogen.Enum) {
 	p("")
 }
 
+// tsIdentifier matches names that can be written as a bare property name and after a dot.
+var tsIdentifier = regexp.MustCompile(`^[A-Za-z_$][A-Za-z0-9_$]*$`)
+
+// TSMemberName returns the JSON name as a property name of an interface or object literal: bare when it is
+// an identifier, quoted otherwise (a json_name option may hold any text, e.g. "attr-map").
+func TSMemberName(jsonName string) string {
+	if tsIdentifier.MatchString(jsonName) {
+		return jsonName
+	}
+	return strconv.Quote(jsonName)
+}
+
+// TSPropAccess returns the expression that reads property jsonName of obj.
+func TSPropAccess(obj, jsonName string) string {
+	if tsIdentifier.MatchString(jsonName) {
+		return obj + "." + jsonName
+	}
+	return obj + "[" + strconv.Quote(jsonName) + "]"
+}
+
 // GenerateInterface writes a TypeScript interface for a protobuf message.
 // If the message has discriminated oneofs, it generates appropriate union types.
 func GenerateInterface(p Printer, msg *protogen.Message) {
@@ -400,13 +422,13 @@ func GenerateOneofDiscriminatedUnionType(p Printer, msgName string, info *annota
 			for _, childField := range variant.Field.Message.Fields {
 				jsonName := childField.Desc.JSONName()
 				optional, tsType := inlinedMemberDecl(childField)
-				sb.WriteString(fmt.Sprintf("; %s%s: %s", jsonName, optional, tsType))
+				sb.WriteString(fmt.Sprintf("; %s%s: %s", TSMemberName(jsonName), optional, tsType))
 			}
 			branch += sb.String()
 			branch += " }"
 		case variant.IsMessage:
 			// Non-flattened message: { discriminator: "value", fieldName?: MessageType }
-			fieldJSONName := variant.Field.Desc.JSONName()
+			fieldJSONName := TSMemberName(variant.Field.Desc.JSONName())
 			msgType := string(variant.Field.Message.Desc.Name())
 			branch = fmt.Sprintf(
 				"{ %s: %q; %s?: %s }",
@@ -417,7 +439,7 @@ func GenerateOneofDiscriminatedUnionType(p Printer, msgName string, info *annota
 			)
 		default:
 			// Non-flattened scalar: { discriminator: "value", fieldName?: scalarType }
-			fieldJSONName := variant.Field.Desc.JSONName()
+			fieldJSONName := TSMemberName(variant.Field.Desc.JSONName())
 			tsType := TSScalarTypeForField(variant.Field)
 			branch = fmt.Sprintf(
 				"{ %s: %q; %s?: %s }",
@@ -540,7 +562,7 @@ func BuildOneofFieldSet(discriminatedOneofs []*annotations.OneofDiscriminatorInf
 
 // GenerateFieldDeclaration generates a single TypeScript field declaration line.
 func GenerateFieldDeclaration(p Printer, field *protogen.Field) {
-	jsonName := field.Desc.JSONName()
+	jsonName := TSMemberName(field.Desc.JSONName())
 	tsType := TSFieldType(field)
 
 	//nolint:gocritic // if-else chain is clearer than switch for distinct boolean checks
@@ -572,7 +594,7 @@ func SnakeToUpperCamel(s string) string {
 // on the wire: every inlined member is optional in the parent.
 func GenerateFlattenedFields(p Printer, childMsg *protogen.Message, prefix string) {
 	for _, childField := range childMsg.Fields {
-		jsonName := prefix + childField.Desc.JSONName()
+		jsonName := TSMemberName(prefix + childField.Desc.JSONName())
 		// (always optional here, whatever the member's own marker: the child itself may be unset)
 		_, tsType := inlinedMemberDecl(childField)
 		p("  %s?: %s;", jsonName, tsType)
